@@ -462,6 +462,8 @@ func checkC02(ctx *Ctx) *Result {
 	r.sample(map[string]any{"cells": cells, "verdicts_compared": checked, "preflight_paths": len(preAll), "actual_paths": len(actAll)})
 	r.CallSites = checked
 	normalisationTables(ctx, r, "R2.2")
+	// "origin allowed" rests on the origin tree: its structural necessary conditions
+	treeRules(ctx, r)
 	return r
 }
 
